@@ -21,6 +21,9 @@ pub struct Op {
     pub settings: SettingsSpec,
     pub w: f32,
     pub h: f32,
+    /// the call is made this many times in a row (long monotonous stretches
+    /// of a history without a long description)
+    pub repeat: u32,
 }
 
 #[derive(Clone, Debug, PartialEq)]
@@ -110,8 +113,16 @@ pub fn install_quiet_panic_hook() {
     }));
 }
 
-/// One call into the library.
+/// `op.repeat` calls into the library; the outcome of the last one.
 pub fn convert(run: &RunDesc, op: &Op) -> Outcome {
+    let mut out = convert_once(run, op);
+    for _ in 1..op.repeat.max(1) {
+        out = convert_once(run, op);
+    }
+    out
+}
+
+fn convert_once(run: &RunDesc, op: &Op) -> Outcome {
     let text: &str = &run.texts[op.text];
     let settings = to_settings(&op.settings);
     QUIET.with(|q| q.set(true));
@@ -228,18 +239,53 @@ impl<'a> BatchGen<'a> {
                     run_texts.len() - 1
                 }
             };
-            return Op { entry, text: i, settings: s, w: 640.0, h: 480.0 };
+            return Op { entry, text: i, settings: s, w: 640.0, h: 480.0, repeat: 1 };
         }
         let text = self.gen_text(rng, mask, run_texts);
         let entry = rng.weighted(&[3, 2, 3, 5, 2]) as u8;
         let settings = if entry >= 3 { gen_op_settings(rng) } else { SettingsSpec::default() };
         let (w, h) = if entry == 4 { (*rng.pick(&[100.0f32, 640.0, 33.5]), *rng.pick(&[50.0f32, 480.0, 7.25])) } else { (0.0, 0.0) };
-        Op { entry, text, settings, w, h }
+        Op { entry, text, settings, w, h, repeat: 1 }
+    }
+
+    /// Counter wrap-around: a diagram X' (X with one character blanked), then X,
+    /// then a tiny conversion repeated N times with N next to a power of two,
+    /// then X' and X again. State that is tagged with a wrapping counter (and
+    /// therefore looks fresh again after exactly 2^k operations) shows up as a
+    /// difference between the two observations of X'.
+    fn gen_wrap_run(&mut self, rng: &mut Rng, idx: u64) -> RunDesc {
+        let x = if rng.chance(2, 3) { rng.pick(&self.pool.circle_paras).clone() } else { gen::gen_input(rng, self.pool, GenMask(gen::G_PARA | gen::G_CIRCLE | gen::G_LEGEND)).0 };
+        let mut cs: Vec<char> = x.chars().collect();
+        let idxs: Vec<usize> = cs.iter().enumerate().filter(|(_, c)| !c.is_whitespace()).map(|(i, _)| i).collect();
+        if !idxs.is_empty() {
+            let i = *rng.pick(&idxs);
+            cs[i] = ' ';
+        }
+        let x2: String = cs.into_iter().collect();
+        let tiny = rng.pick(&["()", "o", "-", "+", "(.)", "{a}", "文"]).to_string();
+        let base = 1u32 << rng.urange(8, 15);
+        let n = (base as i64 + *rng.pick(&[-2i64, -1, 0])) as u32;
+        let op = |t: usize, repeat: u32| Op { entry: 0, text: t, settings: SettingsSpec::default(), w: 0.0, h: 0.0, repeat };
+        RunDesc {
+            idx,
+            texts: vec![x2, x, tiny],
+            warmup: vec![],
+            threads: vec![vec![op(0, 1), op(1, 1), op(2, n), op(0, 1), op(1, 1)]],
+            sched_kind: 0,
+            pct_depth: 1,
+            sched_seed: rng.next_u64(),
+            schedule: None,
+            yield_every: 512,
+            hash_seed: rng.next_u64() | 1,
+        }
     }
 
     /// `max_threads` = 1 for the native leg.
     pub fn gen_run(&mut self, seed: u64, idx: u64, max_threads: usize) -> RunDesc {
         let mut rng = Rng::new(simcommon::mix(seed, "c07-run", idx));
+        if max_threads <= 1 && rng.chance(1, 70) {
+            return self.gen_wrap_run(&mut rng, idx);
+        }
         let mut mask = GenMask::swarm(&mut rng);
         if let Some(p) = self.profile {
             if rng.chance(7, 10) {
@@ -422,6 +468,9 @@ fn op_json(o: &Op) -> Value {
         v["w"] = json!(o.w);
         v["h"] = json!(o.h);
     }
+    if o.repeat != 1 {
+        v["repeat"] = json!(o.repeat);
+    }
     v
 }
 
@@ -434,6 +483,7 @@ fn op_from(v: &Value) -> Op {
         settings: v.get("settings").map(settings_from).unwrap_or_default(),
         w: v.get("w").and_then(|x| x.as_f64()).unwrap_or(0.0) as f32,
         h: v.get("h").and_then(|x| x.as_f64()).unwrap_or(0.0) as f32,
+        repeat: v.get("repeat").and_then(|x| x.as_u64()).unwrap_or(1) as u32,
     }
 }
 
